@@ -31,7 +31,7 @@ def mk(fx, np, t, codes, shape=None, dirty=False, **cfg):
     return fx.Fxp(a, bool(s), w, f, raw=True, **cfg)
 
 
-HIST = ['inplace', 'view', 'resign', 'elementwise', 'intfmt']
+HIST = ['inplace', 'view', 'resign', 'elementwise', 'intfmt', 'fortran', 'transposed']
 
 
 def warm_up(fx, np, X):
@@ -51,6 +51,8 @@ def mk_hist(fx, np, t, codes, shape=None, mode='inplace', **cfg):
       view        - the same write made through a slice view of the object
       elementwise - x[i] = code one element at a time (raw codes through set_val(index=i))
       resign      - created with the opposite signedness, resized by sign only, used, then written in place
+      fortran     - a 2-D operand stored in Fortran (column-major) order      transposed - the .T view of a C-ordered 2-D operand
+                    (both hold the codes in the same LOGICAL order; only the memory layout differs)
       intfmt      - created from integers in the INTEGER format of the same word (n_frac = 0), resized in place to n_frac, used, written in place"""
     s, w, f = t
     scalar = isinstance(codes, int)
@@ -64,6 +66,15 @@ def mk_hist(fx, np, t, codes, shape=None, mode='inplace', **cfg):
         if scalar:
             return a.reshape(())
         return a.reshape(shape) if shape is not None else a
+    if mode in ('fortran', 'transposed') and not scalar and shape is None and len(clist) >= 4 and len(clist) % 2 == 0:
+        a2 = arr(clist).reshape((2, len(clist) // 2))
+        if mode == 'fortran':
+            X = fx.Fxp(np.asfortranarray(a2), bool(s), w, f, raw=True, **cfg)
+        else:
+            X = fx.Fxp(np.ascontiguousarray(a2.T), bool(s), w, f, raw=True, **cfg).T
+        warm_up(fx, np, X)
+        X.reset()
+        return X
     if mode == 'resign' and w >= 2 and w < 63:
         X = fx.Fxp(arr([0] * len(clist)), bool(not s), w, f, raw=True, **cfg)
         X.resize(signed=bool(s))
